@@ -54,9 +54,12 @@ def poison(prog, rep):
     rr = prog.one(P + "Unpacker::read_raw")
     ups = [bi for bi, t in rr.calls() if (t.get("callee") or "") == P + "Unpacker::use_up"]
     errs = _err_returns(rr)
+    # `return self.error()`: error() itself uses the unpacker up (checked below)
+    via_error = [bi for bi, t in rr.calls() if (t.get("callee") or "") == P + "Unpacker::error" and t.get("dest") and t["dest"]["l"] == 0]
+    errs = errs + via_error
     rep.floor(rule, len(errs), 1, "Err returns in read_raw")
     for eb in errs:
-        ok = any(rr.dominates(u, eb) or u == eb for u in ups)
+        ok = eb in via_error or any(rr.dominates(u, eb) or u == eb for u in ups)
         rep.ob(rule, "read_raw | Err passes use_up", ok, "the UnexpectedEnd return of read_raw is preceded by use_up()", rr.loc())
     rd = prog.one(P + "Unpacker::read_data")
     # read_data returns errors through self.error(): every non-Ok result comes from a call to error()
